@@ -13,12 +13,12 @@ SEP, NL, OTH = "S", "N", "O"
 ALPHABET = (SEP, NL, OTH)
 
 
-class RxSyntax(Exception):
-    """The text is rejected by the regex crate's parser (not merely outside the subset understood here)."""
-
-
 class RxError(Exception):
     pass
+
+
+class RxSyntax(RxError):
+    """The text is rejected by the regex crate's parser (not merely outside the subset understood here)."""
 
 
 # ---------------------------------------------------------------------------------------------------
